@@ -76,7 +76,9 @@ check(
     thorough=[unit("codec", "^TestC01Block", checks=80000, timeout=6000, shards=8),
               unit("codec", "^TestC01Block", variant="purego", checks=80000, timeout=6000, shards=4),
               unit("codec", "^TestC01(LargeDictionaries|BigStrings)", checks=600, timeout=6000, shards=2),
-              unit("codec", "^TestC01(LargeDictionaries|BigStrings)", variant="purego", checks=600, timeout=6000, shards=2)],
+              unit("codec", "^TestC01(LargeDictionaries|BigStrings)", variant="purego", checks=600, timeout=6000, shards=2),
+              unit("codec", "^TestC01RawCopy", checks=40000, timeout=6000, shards=4),
+              unit("codec", "^TestC01RawCopy", variant="purego", checks=40000, timeout=6000, shards=2)],
     manifest=dict(
         text="Generated-input search over the whole type catalog with five oracles per case: buffer independence, byte "
              "equality with an independent reference encoder (validity + decoded values for LowCardinality, whose encoding "
